@@ -6,7 +6,7 @@ from ..scen_misc import sort_functions, value_order_arms
 
 
 def run(ctx):
-    sorter(ctx, want_order=True, want_topn=False)
+    sorter(ctx, want_order=True, want_topn=True)      # the top-N shortcut must not disturb the order of what it keeps
     go_chain(ctx, want=('go.chain',))
     sort_functions(ctx)
     value_order_arms(ctx)         # first --sort-by innermost => runs last => most significant under stable sorting
